@@ -130,6 +130,9 @@ class Fan(Device):
     async def turn_on(self, speed: int | None = None) -> None:
         """Turn on fan."""
         if self.switch.initialized:
+            if speed is not None:
+                # raises ConversionError before anything is sent
+                self.speed.to_knx(speed)
             self.switch.on()
             # For a switch GA fan, we only use an explicitly provided speed, but not
             # arbitrarily set a default speed here, compared to the speed GA based fans below.
